@@ -10,7 +10,9 @@ CONCRETE = {
     "[": ["["], "]": ["]"],
     "c": list("+-<>.,"),
     "x": list("a #\n\t!0") + ["\r"],
-    "y": ["é", "日", "\U0001F600", "ß", "€", "\U00010348"],
+    # multi-byte characters, including ones whose code point is congruent to a command modulo 256
+    "y": ["é", "日", "\U0001F600", "ß", "€", "\U00010348", "\u012b", "\u012c", "\u012d", "\u012e", "\u013c", "\u013e",
+          "\u015b", "\u015d", "\u4e2b", "\U0001F62E", "\u305b", "\u305d"],
 }
 COMMENTS = CONCRETE["x"] + CONCRETE["y"]
 
